@@ -25,6 +25,20 @@ the excluded manifest store (that is C02), the per-format layout maps that produ
 the BMFF exclusion list (C12 / C07; here they are inputs), Merkle-tree BMFF hashing (C16/C17).
 The correspondence run checks the statement directly on the implementation for every writable
 format × binding kind.
+
+Map of the statements (second round):
+* data hash — `datahash_binds` / `datahash_detects` (length and bytes), `bindData_accepted_iff`,
+  `tamper_detected_data` (verdict, logged code, Invalid);
+* update manifest — `update_binds_positions` (length and bytes, for every store length the
+  validated asset makes the reader find), on `rebase_sound_complete`;
+* BMFF — `bmff_selected` (own resolved list), `bmff_binds_same_list` (length and bytes with
+  offset markers, no length premise), `bmff_binds_whole`, `tamper_detected_bmff`;
+* box hash — on any box map: `boxhash_protected`, `boxhash_binds_any_layout` (layout may move),
+  `boxhash_extra_box_rejected_all`, `boxhash_length_fixed`; for the assertion form the SDK signs
+  (one name per entry) with no layout hypothesis: `boxhash_every_byte`, `boxhash_binds_single`,
+  `tamper_detected_box`; for grouped entries over a tiling map: `boxhash_binds`;
+* verdict → code → state for all three arms: `bind{Data,Box,Bmff}_accepted_iff`,
+  `rejected_logs_invalid`.
 -/
 namespace C2pa.C01
 open C2pa.C13
@@ -215,17 +229,106 @@ theorem update_binds (dh : DataHash) (calg calg' : Option String) (pre M M' post
     obtain ⟨h2, _⟩ := datahash_selected { dh with excl := excl } calg' b buf' ex' (by rw [hx]) hne' hv
     rw [h2, hsel, h1]
 
+/-- **`update_binds_positions` — update manifest, byte level.** The original asset
+`pre ++ M ++ post` verifies against the signed list `ex`; the reader finds the manifest store of
+the validated asset `b` at the same offset `|pre|` with *any* length `|M'| ≥ |M|` (the range is
+recomputed from `b`, so the party that produced `b` chooses it) and `verify_hash_binding` logs
+`match` on the re-based list `ex'`. Then `b` has exactly the length `|pre| + |M'| + |post|` and
+at every position that `ex'` does not exclude — i.e. outside the store range `(|pre|, |M'|)` and
+outside the other signed exclusions moved by the growth of the store — it carries the signed
+byte: whatever `M'` is, `b` agrees with `pre ++ M' ++ post`. `ex'` is marker-free and its only
+entry that is not a (shifted) signed exclusion is the store range itself. -/
+theorem update_binds_positions (dh : DataHash) (calg calg' : Option String)
+    (pre M M' post b : List UInt8)
+    (buf buf' : Nat) (ex : List HashRange) (hex : dh.excl = some ex) (hp : Plain ex)
+    (hpre : 0 < pre.length) (hM0 : 0 < M.length) (hM : M.length ≤ M'.length)
+    (i : Nat) (hfind : findStart pre.length ex = some i)
+    (hi : ex[i]? = some ⟨pre.length, M.length, none⟩)
+    (hother : ∀ j r, ex[j]? = some r → j ≠ i →
+      r.length = 0 ∨ r.start + r.length ≤ pre.length ∨ pre.length + M.length ≤ r.start)
+    (hfit : ∀ r ∈ ex, r.start + (M'.length - M.length) ≤ u64Max)
+    (h : verifyData dh calg (pre ++ M ++ post) buf = .ok)
+    (e : Bool) (h' : bindData dh calg' true (some ⟨pre.length, M'.length, none⟩) b buf' = .matched e) :
+    ∃ ex', rebase ex (some ⟨pre.length, M'.length, none⟩) = some ex' ∧
+      ex' = (setAt ⟨pre.length, M'.length, none⟩ i ex).map (shiftOne pre.length (M'.length - M.length)) ∧
+      Plain ex' ∧
+      b.length = (pre ++ M' ++ post).length ∧
+      ∀ x, excluded ex' x = false → b[x]? = (pre ++ M' ++ post)[x]? := by
+  obtain ⟨ex', hr, hsel⟩ := update_binds dh calg calg' pre M M' post b buf buf' ex hex hp hpre hM0 hM
+    i hfind hi hother hfit h e h'
+  have hexp := rebase_explicit pre.length M.length M'.length ex hpre i hfind hi hfit
+  rw [hr] at hexp
+  have hform := Option.some.inj hexp
+  have hne : ex ≠ [] := by
+    intro hnil; rw [hnil] at hi; simp at hi
+  have hin : (⟨pre.length, M.length, none⟩ : HashRange) ∈ ex := List.mem_of_getElem? hi
+  obtain ⟨_, w0⟩ := datahash_selected dh calg _ buf ex hex hne h
+  have hplain : Plain ex' := by rw [hform]; exact rebased_plain _ _ _ _ _ hp
+  have hw1 : Within ex' (pre ++ M' ++ post).length := by
+    have := rebased_within pre.length M.length M'.length (pre ++ M ++ post).length i ex hM hin w0
+    rw [hform]
+    have e : (pre ++ M ++ post).length + (M'.length - M.length) = (pre ++ M' ++ post).length := by
+      simp only [List.length_append]; omega
+    rw [e] at this
+    exact this
+  -- `b` verified with the re-based list
+  obtain ⟨excl, hv, hc⟩ := bindData_matched h'
+  have hw2 : Within ex' b.length := by
+    rcases hc with ⟨hu, _⟩ | ⟨_, hn, _⟩ | ⟨_, ex0, ex0', he0, hr0, hx⟩
+    · cases hu
+    · rw [hex] at hn; cases hn
+    · rw [hex] at he0; cases he0
+      rw [hr] at hr0; cases hr0
+      have hne' : ex' ≠ [] := by
+        intro hnil
+        have := rebase_length hr
+        rw [hnil] at this
+        exact hne (List.eq_nil_of_length_eq_zero this.symm)
+      exact (datahash_selected { dh with excl := excl } calg' b buf' ex' (by rw [hx]) hne' hv).2
+  obtain ⟨hl, hb⟩ := exclSpec_plain_binds b (pre ++ M' ++ post) ex' hplain hw2 hw1 hsel
+  exact ⟨ex', hr, hform, hplain, hl, hb⟩
+
+/-- non-vacuity of the hypothesis set of `update_binds` / `update_binds_positions`: a store that
+grew from 3 to 5 bytes at offset 2, with a second signed exclusion behind it -/
+example : ∃ ex', rebase [⟨2, 3, none⟩, ⟨6, 1, none⟩] (some ⟨2, 5, none⟩) = some ex' ∧
+    ([10, 11, 1, 2, 3, 4, 5, 15, 77, 17] : List UInt8).length = 10 ∧
+    ∀ x, excluded ex' x = false →
+      ([10, 11, 1, 2, 3, 4, 5, 15, 77, 17] : List UInt8)[x]? =
+        (([10, 11] : List UInt8) ++ [0, 0, 0, 0, 0] ++ [15, 16, 17])[x]? := by
+  have := update_binds_positions ⟨false, some "sha256", some [⟨2, 3, none⟩, ⟨6, 1, none⟩], [10, 11, 15, 17]⟩
+    none none [10, 11] [12, 13, 14] [0, 0, 0, 0, 0] [15, 16, 17] [10, 11, 1, 2, 3, 4, 5, 15, 77, 17] 3 4
+    [⟨2, 3, none⟩, ⟨6, 1, none⟩] rfl
+    (by intro r hr; simp at hr; rcases hr with rfl | rfl <;> rfl)
+    (by decide) (by decide) (by decide) 0 (by decide) (by decide)
+    (by
+      intro j r hj hne
+      match j, hj, hne with
+      | 0, _, hne => exact absurd rfl hne
+      | 1, hj, _ => simp at hj; subst hj; right; right; decide
+      | j + 2, hj, _ => simp at hj)
+    (by intro r hr; simp at hr; rcases hr with rfl | rfl <;> decide)
+    (by decide) true (by decide)
+  obtain ⟨ex', hr, _, _, hl, hb⟩ := this
+  exact ⟨ex', hr, by decide, hb⟩
+
 /-! ### BMFF file-level hash -/
 
 /-- **`bmff_binds`, selection form.** A successful file-level BMFF verification means the
 position-wise selection (with the 8-byte offset markers) of the asset under the exclusion list
-*resolved on that asset* is the signed preimage. -/
+*resolved on that asset* is the signed preimage, and every resolved range lies inside the asset. -/
 theorem bmff_selected (pre : List UInt8) (alg : String) (ex : List HashRange) (a : List UInt8)
     (buf : Nat) (hne : ex ≠ []) (h : verifyBmff pre alg (some ex) a buf = .ok) :
     exclSpec a ex = pre := by
   unfold verifyBmff at h
   obtain ⟨prog, hp⟩ := compareHash_ok h
   exact (excl_digest alg a ex buf none pre prog hne hp).symm
+
+theorem bmff_within (pre : List UInt8) (alg : String) (ex : List HashRange) (a : List UInt8)
+    (buf : Nat) (h : verifyBmff pre alg (some ex) a buf = .ok) : Within ex a.length := by
+  unfold verifyBmff at h
+  obtain ⟨prog, hp⟩ := compareHash_ok h
+  obtain ⟨ps, hb, _⟩ := ok_absorbed hp
+  exact buildPieces_ok_within hb
 
 /-- **`bmff_binds`.** Two assets that verify against the same signed BMFF hash have equal
 selections under their own resolved exclusions; when the resolved lists coincide and the
@@ -243,6 +346,52 @@ theorem bmff_binds (pre : List UInt8) (alg alg' : String) (ex ex' : List HashRan
   subst he
   exact exclSpec_eq_bytes a a' ex hl (h1.trans h2.symm)
 
+/-- **`bmff_binds_same_list`.** When the resolver returns the same list for both assets (the
+box layout did not move: flips, and appended / removed bytes the resolver does not see), two
+assets that verify against the same signed BMFF hash have the *same length* and the same byte at
+every position that is not excluded — offset markers included, with no premise on the lengths.
+`hany`: some byte of each asset is hashed (true of every BMFF asset: the exclusions are the
+C2PA `uuid` box and a few named boxes). -/
+theorem bmff_binds_same_list (pre : List UInt8) (alg alg' : String) (ex : List HashRange)
+    (a a' : List UInt8) (buf buf' : Nat) (hne : ex ≠ [])
+    (hany : ∃ y, y < a.length ∧ excluded ex y = false)
+    (hany' : ∃ y, y < a'.length ∧ excluded ex y = false)
+    (h : verifyBmff pre alg (some ex) a buf = .ok)
+    (h' : verifyBmff pre alg' (some ex) a' buf' = .ok) :
+    a.length = a'.length ∧ ∀ x, excluded ex x = false → a[x]? = a'[x]? := by
+  have h1 := bmff_selected pre alg ex a buf hne h
+  have h2 := bmff_selected pre alg' ex a' buf' hne h'
+  have hl := exclSpec_markers_length a a' ex (bmff_within pre alg ex a buf h)
+    (bmff_within pre alg' ex a' buf' h') hany hany' (h1.trans h2.symm)
+  exact ⟨hl, exclSpec_eq_bytes a a' ex hl (h1.trans h2.symm)⟩
+
+/-- contrapositive: under an unchanged resolved list, a change of length (append, truncate) or
+of a non-excluded byte is rejected -/
+theorem bmff_detects_same_list (pre : List UInt8) (alg alg' : String) (ex : List HashRange)
+    (a a' : List UInt8) (buf buf' : Nat) (hne : ex ≠ [])
+    (hany : ∃ y, y < a.length ∧ excluded ex y = false)
+    (hany' : ∃ y, y < a'.length ∧ excluded ex y = false)
+    (h : verifyBmff pre alg (some ex) a buf = .ok)
+    (hd : a.length ≠ a'.length ∨ ∃ x, excluded ex x = false ∧ a[x]? ≠ a'[x]?) :
+    verifyBmff pre alg' (some ex) a' buf' ≠ .ok := by
+  intro h'
+  obtain ⟨hl, hb⟩ := bmff_binds_same_list pre alg alg' ex a a' buf buf' hne hany hany' h h'
+  rcases hd with hd | ⟨x, hx, hne'⟩
+  · exact hd hl
+  · exact hne' (hb x hx)
+
+/-- an empty resolved list (no box of the asset matches any exclusion path): the whole asset is
+the preimage, so the two assets are equal -/
+theorem bmff_binds_whole (pre : List UInt8) (alg alg' : String) (a a' : List UInt8) (buf buf' : Nat)
+    (h : verifyBmff pre alg (some []) a buf = .ok)
+    (h' : verifyBmff pre alg' (some []) a' buf' = .ok) : a = a' := by
+  unfold verifyBmff at h h'
+  obtain ⟨prog, hp⟩ := compareHash_ok h
+  obtain ⟨prog', hp'⟩ := compareHash_ok h'
+  have e1 := whole_digest alg a (some []) true buf none pre prog (Or.inr rfl) hp
+  have e2 := whole_digest alg' a' (some []) true buf' none pre prog' (Or.inr rfl) hp'
+  exact e1.symm.trans e2
+
 /-- a failing exclusion resolver is a verification failure -/
 theorem bmff_resolver_failure (pre : List UInt8) (alg : String) (a : List UInt8) (buf : Nat) :
     verifyBmff pre alg none a buf = .err .handler := rfl
@@ -251,20 +400,25 @@ theorem bmff_resolver_failure (pre : List UInt8) (alg : String) (a : List UInt8)
 
 `verifyBox_ok`, `spans_cover`, `boxhash_same_layout` are in Lemmas/C01Box.lean. -/
 
-/-- **`boxhash_binds`.** Two assets of equal length that verify against the same signed box
-hash under the same tiling box map agree at every position outside the C2PA / excluded entries
+/-- **`boxhash_binds`** (grouped entries, tiling box map). Two assets that verify against the
+same signed box hash under the same tiling box map have the same length (unless the asset is
+nothing but the manifest store) and agree at every position outside the C2PA / excluded entries
 (and outside a PNG signature box the assertion does not list — its eight bytes are fixed by the
-format). The consumed-all and coverage checks of the fix are what make this true: see
-`boxhash_needs_cover` below for the unchecked variant. -/
+format). Entries may list several names. The consumed-all and coverage checks of the fix are
+what make this true: see `boxhash_needs_cover` below for the unchecked variant. For single-name
+entries no tiling is needed (`boxhash_binds_single`); when the box map moves,
+`boxhash_binds_any_layout`. -/
 theorem boxhash_binds (boxes : List BoxEntry) (calg calg' : Option String) (src : List SrcBox)
-    (a a' : List UInt8) (buf buf' : Nat) (hlen : a.length = a'.length)
+    (a a' : List UInt8) (buf buf' : Nat)
     (hw : Tiles src 0 a.length) (hn : a.length ≤ u64Max)
     (h : verifyBox boxes calg (some src) a buf = .ok)
     (h' : verifyBox boxes calg' (some src) a' buf' = .ok) :
+    (onlyC2pa src = false → a.length = a'.length) ∧
     ∃ sts, spansOf src boxes (idx0 boxes src) = .ok sts ∧
       ∀ x, x < a.length → unprotected boxes sts x = false → inSkippedPngh boxes src x = false →
         a[x]? = a'[x]? :=
-  boxhash_same_layout boxes calg calg' src a a' buf buf' hlen hw hn h h'
+  ⟨fun hno => boxhash_length_fixed boxes calg calg' src a a' buf buf' hno h h',
+   boxhash_same_layout boxes calg calg' src a a' buf buf' hw hn h h'⟩
 
 /-- the box-hash verification **before the fix** (no consumed-all / coverage check) -/
 def verifyBoxUnchecked (boxes : List BoxEntry) (claimAlg : Option String) (src : List SrcBox)
@@ -280,8 +434,10 @@ def f5Boxes : List BoxEntry :=
   [⟨["IHDR"], some "sha256", [1, 2], none⟩, ⟨["C2PA"], none, [], none⟩,
    ⟨["IEND"], some "sha256", [4, 5], none⟩]
 
-/-- **F5 (DESIGN §5), on the model**: with the handler box map stopping at the last chunk,
-appended bytes verified before the fix … -/
+/-- **F5 (DESIGN §5), on the model** (a sample; the general statements are
+`boxhash_length_fixed` / `boxhash_append_rejected_all` / `boxhash_extra_box_rejected_all` in
+Lemmas/C01Box.lean): with the handler box map stopping at the last chunk, appended bytes
+verified before the fix … -/
 theorem boxhash_needs_cover :
     verifyBoxUnchecked f5Boxes none f5Src [1, 2, 9, 4, 5, 0xde, 0xad] 4 = .ok := by decide
 
@@ -311,25 +467,293 @@ theorem mismatch_code_invalid (r : C04.Results) (s : C04.Status) (hk : s.kind = 
   apply C04.add_nontolerated_failure_invalid r s hk
   rcases hc with h | h | h <;> rw [h] <;> decide
 
-/-- **Tamper evidence for the data hash, end to end on the model.** The signed asset verifies;
-a modified asset differs in length or at a non-excluded position; then `verify_hash_binding`
-does not log `match`: it logs the mismatch failure (or the read fails), and with the failure
-logged the validation state is Invalid. -/
+/-! ### the verdict of `verify_hash_binding`, what it logs, and the validation state -/
+
+/-- the arm logged the `match` success entry -/
+def Verdict.accepted : Verdict → Bool
+  | .matched _ => true
+  | _ => false
+
+theorem verdictOf_accepted_iff (r : VRes) (e : Bool) :
+    (verdictOf r e).accepted = true ↔ r = .ok := by
+  cases r with
+  | ok => simp [verdictOf, Verdict.accepted]
+  | err er =>
+    cases er with
+    | hash e => cases e <;> simp [verdictOf, Verdict.accepted]
+    | _ => simp [verdictOf, Verdict.accepted]
+
+/-- the exclusion list the data-hash arm verifies with (`none`: the re-basing overflowed) -/
+def effExcl (dh : DataHash) (upd : Bool) (range : Option HashRange) :
+    Option (Option (List HashRange)) :=
+  if upd then
+    match dh.excl with
+    | some ex => (rebase ex range).map some
+    | none => some none
+  else some dh.excl
+
+def extraOf : Option (List HashRange) → Bool
+  | some l => decide (l.length > 1)
+  | none => false
+
+/-- the data-hash arm maps the verifier's result exactly like the other two arms -/
+theorem bindData_eq (dh : DataHash) (calg : Option String) (upd : Bool) (range : Option HashRange)
+    (a : List UInt8) (buf : Nat) :
+    bindData dh calg upd range a buf =
+      match effExcl dh upd range with
+      | none => .panic
+      | some excl =>
+        if dh.remote then .mismatched false
+        else verdictOf (verifyData { dh with excl := excl } calg a buf) (extraOf excl) := by
+  unfold bindData
+  show (match effExcl dh upd range with
+    | none => Verdict.panic
+    | some excl => _) = _
+  cases effExcl dh upd range with
+  | none => rfl
+  | some excl =>
+    simp only
+    by_cases hr : dh.remote = true
+    · simp [hr]
+    · simp only [hr, Bool.false_eq_true, if_false]
+      cases excl <;>
+        (cases verifyData _ calg a buf with
+         | ok => rfl
+         | err er =>
+           cases er with
+           | hash e => cases e <;> rfl
+           | _ => rfl)
+
+/-- **iff-characterisation of `match`, data hash** (all of: plain, update manifest, remote) -/
+theorem bindData_accepted_iff (dh : DataHash) (calg : Option String) (upd : Bool)
+    (range : Option HashRange) (a : List UInt8) (buf : Nat) :
+    (bindData dh calg upd range a buf).accepted = true ↔
+      ∃ excl, effExcl dh upd range = some excl ∧
+        verifyData { dh with excl := excl } calg a buf = .ok := by
+  rw [bindData_eq]
+  cases effExcl dh upd range with
+  | none => simp [Verdict.accepted]
+  | some excl =>
+    simp only [Option.some.injEq, exists_eq_left']
+    by_cases hr : dh.remote = true
+    · simp only [hr, if_true, Verdict.accepted, Bool.false_eq_true, false_iff]
+      intro hv
+      have := (verifyData_ok hv).1
+      simp [hr] at this
+    · simp only [hr, Bool.false_eq_true, if_false]
+      exact verdictOf_accepted_iff _ _
+
+/-- **iff-characterisation of `match`, box hash** -/
+theorem bindBox_accepted_iff (hh : Bool) (boxes : List BoxEntry) (calg : Option String)
+    (src : Option (List SrcBox)) (a : List UInt8) (buf : Nat) :
+    (bindBox hh boxes calg src a buf).accepted = true ↔
+      hh = true ∧ verifyBox boxes calg src a buf = .ok := by
+  unfold bindBox
+  cases hh with
+  | false => simp [Verdict.accepted]
+  | true => simpa using verdictOf_accepted_iff _ _
+
+/-- **iff-characterisation of `match`, BMFF hash** -/
+theorem bindBmff_accepted_iff (self : BmffSelf) (pre : List UInt8) (alg : String)
+    (resolved : Option (List HashRange)) (a : List UInt8) (buf : Nat) :
+    (bindBmff self pre alg resolved a buf).accepted = true ↔
+      self = .ok ∧ verifyBmff pre alg resolved a buf = .ok := by
+  unfold bindBmff
+  cases self with
+  | ok => simpa using verdictOf_accepted_iff _ _
+  | remote => simp [Verdict.accepted]
+  | malformed => simp [Verdict.accepted]
+
+/-- **Not `match` ⇒ Invalid, through the verdict.** Whatever a hard-binding arm logs when its
+verdict is not `match` is a failure entry whose code is not tolerated: with it in the results
+(active manifest or ingredient delta) the validation state is `Invalid`, whatever else they
+contain. When the arm logs nothing (`fatal` / `panic`) the validation call itself fails: there is
+no report. Covers `assertion.{dataHash,boxesHash,bmffHash}.mismatch` and `.malformed`. -/
+theorem rejected_logs_invalid (k : Kind) (v : Verdict) (hv : v.accepted = false)
+    (c : String) (f : Bool) (hl : v.logged k = some (c, f)) :
+    f = true ∧ ∀ (r : C04.Results) (uri : Option (List Char)),
+      C04.state (C04.addStatus r ⟨c.toList, .failure, uri⟩) = .invalid := by
+  cases v with
+  | matched e => simp [Verdict.accepted] at hv
+  | fatal => simp [Verdict.logged] at hl
+  | panic => simp [Verdict.logged] at hl
+  | mismatched e =>
+    simp only [Verdict.logged, Option.some.injEq, Prod.mk.injEq] at hl
+    obtain ⟨hc, hf⟩ := hl
+    subst hc; subst hf
+    refine ⟨rfl, fun r uri => ?_⟩
+    cases k <;> exact C04.add_nontolerated_failure_invalid r _ rfl (by dsimp only; decide)
+  | malformed =>
+    simp only [Verdict.logged, Option.some.injEq, Prod.mk.injEq] at hl
+    obtain ⟨hc, hf⟩ := hl
+    subst hc; subst hf
+    refine ⟨rfl, fun r uri => ?_⟩
+    cases k <;> exact C04.add_nontolerated_failure_invalid r _ rfl (by dsimp only; decide)
+
+/-- the logged codes are the ones the reader reports -/
+example : (Verdict.mismatched false).logged .box = some ("assertion.boxesHash.mismatch", true) := rfl
+example : Verdict.malformed.logged .bmff = some ("assertion.bmffHash.malformed", true) := rfl
+
+/-- the range hasher without a cancellation callback never fails with an I/O error or a
+cancellation: the arms' `fatal` branch is unreachable on an in-memory stream -/
+theorem compareHash_not_fatal (pre : List UInt8) (alg : String) (a : List UInt8)
+    (hr : Option (List HashRange)) (isExcl : Bool) (buf : Nat) (hlen : a.length ≤ u64Max)
+    (hb : 0 < buf) :
+    compareHash pre (hashModel alg a hr isExcl buf none) ≠ .err (.hash .io) ∧
+    compareHash pre (hashModel alg a hr isExcl buf none) ≠ .err (.hash .cancelled) := by
+  have := outcome_cases alg a hr isExcl buf none hlen hb
+  simp only at this
+  rcases this with h | h | h | ⟨ps, _, ⟨h, _⟩ | ⟨n, _, _, _, hc⟩ | ⟨h, _⟩⟩
+  · rw [h]; exact ⟨by simp [compareHash], by simp [compareHash]⟩
+  · rw [h]; exact ⟨by simp [compareHash], by simp [compareHash]⟩
+  · rw [h]; exact ⟨by simp [compareHash], by simp [compareHash]⟩
+  · rw [h]; exact ⟨by simp [compareHash], by simp [compareHash]⟩
+  · cases hc
+  · rw [h]
+    unfold compareHash
+    constructor <;> (simp only; split <;> simp)
+
+theorem verdictOf_fatal {r : VRes} {e : Bool} (h : verdictOf r e = .fatal) :
+    r = .err (.hash .io) ∨ r = .err (.hash .cancelled) := by
+  cases r with
+  | ok => simp [verdictOf] at h
+  | err er =>
+    cases er with
+    | hash e => cases e <;> simp_all [verdictOf]
+    | _ => simp [verdictOf] at h
+
+theorem verifyData_not_fatal (dh : DataHash) (calg : Option String) (a : List UInt8) (buf : Nat)
+    (hlen : a.length ≤ u64Max) (hb : 0 < buf) :
+    verifyData dh calg a buf ≠ .err (.hash .io) ∧ verifyData dh calg a buf ≠ .err (.hash .cancelled) := by
+  unfold verifyData
+  by_cases hr : dh.remote = true
+  · simp [hr]
+  · simp only [hr, Bool.false_eq_true, if_false]
+    split
+    · simp
+    · exact compareHash_not_fatal _ _ _ _ _ _ hlen hb
+
+/-- the data-hash arm on an in-memory stream either logs (`match` / `mismatch`) or aborts on the
+`u32` progress-counter overflow (C13): it never returns a fatal error -/
+theorem bindData_not_fatal (dh : DataHash) (calg : Option String) (upd : Bool)
+    (range : Option HashRange) (a : List UInt8) (buf : Nat) (hlen : a.length ≤ u64Max)
+    (hb : 0 < buf) : bindData dh calg upd range a buf ≠ .fatal := by
+  rw [bindData_eq]
+  cases effExcl dh upd range with
+  | none => simp
+  | some excl =>
+    simp only
+    split
+    · simp
+    · intro hf
+      have := verifyData_not_fatal { dh with excl := excl } calg a buf hlen hb
+      rcases verdictOf_fatal hf with h | h
+      · exact this.1 h
+      · exact this.2 h
+
+/-- **Tamper evidence for the data hash, end to end on the model.** The signed asset verifies; a
+modified asset differs in length or at a non-excluded position. Then the verdict of
+`verify_hash_binding` on the modified asset is not `match`; it is the `mismatch` verdict (or the
+progress-counter abort), and what the verdict logs — the failure `assertion.dataHash.mismatch` —
+makes the validation state Invalid. -/
 theorem tamper_detected_data (dh : DataHash) (calg calg' : Option String) (a a' : List UInt8)
     (buf buf' : Nat) (ex : List HashRange) (hex : dh.excl = some ex) (hne : ex ≠ [])
     (hp : Plain ex) (h : verifyData dh calg a buf = .ok)
-    (hd : a.length ≠ a'.length ∨ ∃ x, excluded ex x = false ∧ a[x]? ≠ a'[x]?) :
-    (∀ e, bindData dh calg' false none a' buf' ≠ .matched e) ∧
-    ∀ (r : C04.Results) (uri : Option (List Char)),
-      C04.state (C04.addStatus r ⟨cDataMismatch, .failure, uri⟩) = .invalid := by
-  refine ⟨?_, fun r uri => mismatch_code_invalid r _ rfl (Or.inl rfl)⟩
-  intro e hm
-  obtain ⟨excl, hv, hc⟩ := bindData_matched hm
-  rcases hc with ⟨_, hx⟩ | ⟨hu, _⟩ | ⟨hu, _⟩
-  · subst hx
-    exact datahash_detects dh calg calg' a a' buf buf' ex hex hne hp h hd hv
-  · cases hu
-  · cases hu
+    (hd : a.length ≠ a'.length ∨ ∃ x, excluded ex x = false ∧ a[x]? ≠ a'[x]?)
+    (hlen : a'.length ≤ u64Max) (hb : 0 < buf') :
+    let v := bindData dh calg' false none a' buf'
+    v.accepted = false ∧ ((∃ e, v = .mismatched e) ∨ v = .panic) ∧
+    ∀ c f, v.logged .data = some (c, f) →
+      c = "assertion.dataHash.mismatch" ∧ f = true ∧
+      ∀ (r : C04.Results) (uri : Option (List Char)),
+        C04.state (C04.addStatus r ⟨c.toList, .failure, uri⟩) = .invalid := by
+  intro v
+  have hacc : v.accepted = false := by
+    rw [Bool.eq_false_iff]
+    intro hv
+    obtain ⟨excl, he, hok⟩ := (bindData_accepted_iff dh calg' false none a' buf').1 hv
+    simp only [effExcl, Bool.false_eq_true, if_false, Option.some.injEq] at he
+    subst he
+    exact datahash_detects dh calg calg' a a' buf buf' ex hex hne hp h hd hok
+  have hnf := bindData_not_fatal dh calg' false none a' buf' hlen hb
+  have hshape : (∃ e, v = .mismatched e) ∨ v = .panic := by
+    have hnm : v ≠ .malformed := by
+      show bindData dh calg' false none a' buf' ≠ .malformed
+      rw [bindData_eq]
+      simp only [effExcl, Bool.false_eq_true, if_false]
+      split
+      · simp
+      · cases verifyData { dh with excl := dh.excl } calg' a' buf' with
+        | ok => simp [verdictOf]
+        | err er =>
+          cases er with
+          | hash e => cases e <;> simp [verdictOf]
+          | _ => simp [verdictOf]
+    cases hv : v with
+    | matched e => rw [hv] at hacc; simp [Verdict.accepted] at hacc
+    | mismatched e => exact Or.inl ⟨e, rfl⟩
+    | malformed => exact absurd hv hnm
+    | fatal => exact absurd hv hnf
+    | panic => exact Or.inr rfl
+  refine ⟨hacc, hshape, ?_⟩
+  intro c f hl
+  obtain ⟨hf, hinv⟩ := rejected_logs_invalid .data v hacc c f hl
+  refine ⟨?_, hf, hinv⟩
+  rcases hshape with ⟨e, he⟩ | he
+  · rw [he] at hl; simp [Verdict.logged] at hl; exact hl.1.symm
+  · rw [he] at hl; simp [Verdict.logged] at hl
+
+/-- **Tamper evidence for the box hash** (assertion in the form the SDK signs: one name per
+entry; any box map, overlapping ones included). The signed asset verifies under the box map
+`src`; a modified asset for which the handler produces the same box map differs in length or at
+a position outside the C2PA / excluded entries and the unlisted PNG signature. Then the verdict
+is not `match` and what it logs makes the state Invalid. (A modification that *changes* the box
+map is covered by `boxhash_binds_any_layout` / `boxhash_every_byte`: the protected content of
+whatever verifies is the signed content.) -/
+theorem tamper_detected_box (hh : Bool) (boxes : List BoxEntry) (calg calg' : Option String)
+    (src : List SrcBox) (a a' : List UInt8) (buf buf' : Nat)
+    (h1 : ∀ bm ∈ boxes, bm.names.length = 1) (hno : onlyC2pa src = false)
+    (h : verifyBox boxes calg (some src) a buf = .ok)
+    (hd : a.length ≠ a'.length ∨ ∃ sts, spansOf src boxes (idx0 boxes src) = .ok sts ∧
+      ∃ x, x < a.length ∧ unprotected boxes sts x = false ∧ inSkippedPngh boxes src x = false ∧
+        a[x]? ≠ a'[x]?) :
+    let v := bindBox hh boxes calg' (some src) a' buf'
+    v.accepted = false ∧
+    ∀ c f, v.logged .box = some (c, f) → f = true ∧
+      ∀ (r : C04.Results) (uri : Option (List Char)),
+        C04.state (C04.addStatus r ⟨c.toList, .failure, uri⟩) = .invalid := by
+  intro v
+  have hacc : v.accepted = false := by
+    rw [Bool.eq_false_iff]
+    intro hv
+    obtain ⟨_, hok⟩ := (bindBox_accepted_iff hh boxes calg' (some src) a' buf').1 hv
+    obtain ⟨hl, sts, hs, hb⟩ := boxhash_binds_single boxes calg calg' src a a' buf buf' h1 hno h hok
+    rcases hd with hd | ⟨sts', hs', x, hx, hu, hpn, hne⟩
+    · exact hd hl
+    · rw [hs] at hs'; cases hs'
+      exact hne (hb x hx hu hpn)
+  exact ⟨hacc, fun c f hl => rejected_logs_invalid .box v hacc c f hl⟩
+
+/-- **Tamper evidence for the BMFF hash** (file-level hash; the resolver returns the same list
+on the modified asset). -/
+theorem tamper_detected_bmff (pre : List UInt8) (alg alg' : String) (ex : List HashRange)
+    (a a' : List UInt8) (buf buf' : Nat) (hne : ex ≠ [])
+    (hany : ∃ y, y < a.length ∧ excluded ex y = false)
+    (hany' : ∃ y, y < a'.length ∧ excluded ex y = false)
+    (h : verifyBmff pre alg (some ex) a buf = .ok)
+    (hd : a.length ≠ a'.length ∨ ∃ x, excluded ex x = false ∧ a[x]? ≠ a'[x]?) (self : BmffSelf) :
+    let v := bindBmff self pre alg' (some ex) a' buf'
+    v.accepted = false ∧
+    ∀ c f, v.logged .bmff = some (c, f) → f = true ∧
+      ∀ (r : C04.Results) (uri : Option (List Char)),
+        C04.state (C04.addStatus r ⟨c.toList, .failure, uri⟩) = .invalid := by
+  intro v
+  have hacc : v.accepted = false := by
+    rw [Bool.eq_false_iff]
+    intro hv
+    obtain ⟨_, hok⟩ := (bindBmff_accepted_iff self pre alg' (some ex) a' buf').1 hv
+    exact bmff_detects_same_list pre alg alg' ex a a' buf buf' hne hany hany' h hd hok
+  exact ⟨hacc, fun c f hl => rejected_logs_invalid .bmff v hacc c f hl⟩
 
 /-! ### non-vacuity -/
 
@@ -352,6 +776,35 @@ example : verifyBox f5Boxes none (some f5Src) [1, 2, 9, 4, 5] 4 = .ok := by deci
 example : verifyBox f5Boxes none (some f5Src) [1, 2, 77, 4, 5] 4 = .ok := by decide
 example : verifyBox f5Boxes none (some f5Src) [1, 2, 9, 4, 6] 4 = .err .mismatch := by decide
 example : Tiles f5Src 0 5 := by simp [Tiles, f5Src]
+
+/-- a JPEG-like box map that does **not** tile: `RST0` lies inside `SOS` -/
+def jSrc : List SrcBox :=
+  [⟨["SOI"], 0, 2⟩, ⟨["C2PA"], 2, 1⟩, ⟨["SOS"], 3, 4⟩, ⟨["RST0"], 5, 1⟩, ⟨["EOI"], 7, 1⟩]
+def jBoxes : List BoxEntry :=
+  [⟨["SOI"], some "sha256", [0xff, 0xd8], none⟩, ⟨["C2PA"], none, [], none⟩,
+   ⟨["SOS"], some "sha256", [1, 2, 3, 4], none⟩, ⟨["RST0"], some "sha256", [3], none⟩,
+   ⟨["EOI"], some "sha256", [9], none⟩]
+/-- the hypotheses of `boxhash_every_byte` / `boxhash_binds_single` / `tamper_detected_box` hold
+for it: verification succeeds, one name per entry, not only C2PA -/
+example : verifyBox jBoxes none (some jSrc) [0xff, 0xd8, 7, 1, 2, 3, 4, 9] 4 = .ok := by decide
+example : ∀ bm ∈ jBoxes, bm.names.length = 1 := by
+  intro bm hb
+  simp only [jBoxes, List.mem_cons, List.not_mem_nil, or_false] at hb
+  rcases hb with rfl | rfl | rfl | rfl | rfl <;> rfl
+example : onlyC2pa jSrc = false := by decide
+example : ¬ Tiles jSrc 0 8 := by simp [Tiles, jSrc]
+/-- a flip inside the scan, outside the restart marker, is caught by the `SOS` entry -/
+example : verifyBox jBoxes none (some jSrc) [0xff, 0xd8, 7, 1, 2, 3, 5, 9] 4 = .err .mismatch := by
+  decide
+example : bindBox true jBoxes none (some jSrc) [0xff, 0xd8, 7, 1, 2, 3, 5, 9] 4 = .mismatched false := by
+  decide
+example : bindBox false jBoxes none (some jSrc) [0xff, 0xd8, 7, 1, 2, 3, 4, 9] 4 = .fatal := by decide
+/-- BMFF: the hypotheses of `bmff_binds_same_list` (a hashed byte exists) and the arm's verdicts -/
+example : ∃ y, y < ([1, 2, 3, 4] : List UInt8).length ∧
+    excluded [⟨2, 2, none⟩, ⟨1, 1, some 1⟩] y = false := ⟨0, by decide, by decide⟩
+example : bindBmff .ok ([1] ++ be64 1 ++ [2]) "sha256" (some [⟨2, 2, none⟩, ⟨1, 1, some 1⟩]) [1, 2, 3, 4, 5] 3 =
+    .mismatched false := by decide
+example : bindBmff .malformed [] "sha256" (some []) [1] 3 = .malformed := rfl
 example : verifyBmff ([1] ++ be64 1 ++ [2]) "sha256" (some [⟨2, 2, none⟩, ⟨1, 1, some 1⟩]) [1, 2, 3, 4] 3 =
     .ok := by decide
 
